@@ -309,8 +309,10 @@ func ruleC11M6(r *Run) {
 }
 
 // ruleC11M7: pooled codec buffers are reset before they go back to the pool, on every path.
-func ruleC11M7(r *Run) {
-	r.Begin("M7", "byte accounting with pooled buffers: every sync.Pool.Put of a buffer obtained from a pool in a codec is preceded, in the same function body, by Reset() on that buffer — so that a rejected frame cannot leave stale bytes that the next decode counts or parses", 2)
+func ruleC11M7(r *Run) { rulePoolReset(r, "M7") }
+
+func rulePoolReset(r *Run, id string) {
+	r.Begin(id, "byte accounting with pooled buffers: every sync.Pool.Put of a buffer obtained from a pool in a codec is preceded, in the same function body, by Reset() on that buffer — so that a rejected frame cannot leave stale bytes that the next decode counts or parses", 2)
 	p := r.P
 	n := 0
 	for _, fn := range p.Funcs {
